@@ -238,7 +238,7 @@ def well_formed(text, v):
         if no not in (ns - 1, ns) or ns < 2:
             return False
     if f[0] in ("E", "F"):
-        ps = f[4:8]
+        ps = f[4:8] if f[0] == "E" else f[3:7]
         for b, e in ((ps[0], ps[1]), (ps[2], ps[3])):
             if int(b.rstrip("$")) > int(e.rstrip("$")):
                 return False
